@@ -110,7 +110,7 @@ Proof.
   intros c' y' Hy' Hwin. rewrite Hcs in Hy'.
   destruct (live_owner (fs s') (cs s')) eqn:E; [|reflexivity]. exfalso.
   apply nth_set_nth in Hy' as [[<- ->]|[Hne Hy']].
-  - destruct Hcase as [(a & _ & _ & _ & _ & _ & _ & _ & _ & Hc & Hg)|[(_ & _ & Hh & Ha & _ & Hee & _ & _ & _)|[(_ & _ & _ & _ & _ & Hc & _)|(_ & _ & _ & Hc & Hg)]]].
+  - destruct Hcase as [(a & _ & _ & _ & _ & _ & _ & _ & _ & Hc & Hg)|[(_ & _ & Hh & Ha & _ & Hee & _ & _ & _)|[(_ & _ & _ & _ & _ & Hc & _)|(_ & _ & _ & Hg & Hc)]]].
     + unfold window_open in Hwin. rewrite Hc, Hg in Hwin. discriminate.
     + (* Unlock begins: the holder's own directory is the one on disk, and it is no longer engaged *)
       destruct (eng x) as [gx|] eqn:Ex; [|exact (Hhe c x Hx Hh Ex)].
@@ -119,7 +119,10 @@ Proof.
       unfold same_dir in Hsd. rewrite Hd, Hd' in Hsd. destruct Hsd as [Hg' Ho'].
       rewrite Hcs, <- Ho', Hod in Hz. rewrite (nth_set_nth_eq (cs s) c x2 x Hx) in Hz. inversion Hz; subst. congruence.
     + unfold window_open in Hwin. rewrite Hc in Hwin. discriminate.
-    + assert (window_open x = true) as Hw by (unfold window_open, at_mkdir in *; rewrite <- Hc, <- Hg; exact Hwin).
+    + assert (window_open x = true) as Hw.
+      { destruct Hc as [Hc|(p & Hc & Hc2)]; unfold window_open, at_mkdir in *.
+        - rewrite <- Hc, <- Hg; exact Hwin.
+        - rewrite Hc2, Hg in Hwin. rewrite Hc. exact Hwin. }
       rewrite (HW c x Hx Hw) in Hle. specialize (Hle eq_refl). discriminate.
   - rewrite (HW c' y' Hy' Hwin) in Hle. specialize (Hle eq_refl). discriminate.
 Qed.
@@ -130,10 +133,11 @@ Proof.
   destruct (allowedb judge s it) eqn:Hall; [|discriminate].
   destruct (exec s it) as [[s1 o]|] eqn:E; [|discriminate].
   apply (IH s1 s'); [|exact H].
-  destruct it as [c a|c [k|] st|c].
+  destruct it as [c a|c [k|] st|c|c].
   - eapply Inv2_other; eauto. discriminate.
   - eapply Inv2_other; eauto. discriminate.
   - eapply Inv2_mstep; eauto. eapply exec_main_inv; eauto.
+  - eapply Inv2_other; eauto. discriminate.
   - eapply Inv2_other; eauto. discriminate.
 Qed.
 
